@@ -3,6 +3,6 @@ CONSTANTS
   Keys = {1, 2, 3}
   Writers = {"w1", "w2", "w3"}
   Subs = {"s1", "s2"}
-  Dev <- TraceDev
+  Dev = {}
 POSTCONDITION TraceAccepted
 CHECK_DEADLOCK FALSE
